@@ -85,6 +85,11 @@ def classifyDiff (n30 n31 : Json) (excused : List (String × String × String)) 
   let inComponents := d.path.take 2 = ["components", "schemas"]
   -- C11-F1: 3.0 adds a `default` response to every operation, 3.1 never does
   if last = "default" && d.kind = "only30" && (d.path.dropLast.getLast?.getD "") = "responses" then "C11-F1"
+  -- C11-F9 (= C07-F7): 3.1 renders a member of a STRING enum component that reads as another YAML scalar ("", null, true, 0)
+  -- as that scalar; the two member lists then differ (and sort differently)
+  else if inComponents && d.path.length ≥ 4 && d.path.any (· = "enum") &&
+       (let comp31 := jsonAt n31 (d.path.take 3)
+        jstrD comp31 "type" = "string" && (jarrD comp31 "enum").any fun m => match m with | .str _ => false | _ => true) then "C11-F9"
   -- C11-F2 (= C08-F1): 3.0 renders non-string enum members of a COMPONENT as strings
   else if inComponents && d.path.any (· = "enum") && d.kind = "val" &&
        (match d.a, d.b with | .str _, .num _ => true | .str _, .bool _ => true | _, _ => false) then "C11-F2"
